@@ -588,7 +588,7 @@ ANY_QUERIES = ["to_dense", "diagonal", "matmul"]
 
 ADHOC_CACHE_ATTRS = ["_q_cache", "_r_cache", "_noise", "_constant_diag", "_piv_chol_self", "_precond_lt", "_precond_logdet_cache",
                      "_default_preconditioner_cache", "_sparse_left_interp_t_memo", "_sparse_right_interp_t_memo", "_left_interp_indices_memo",
-                     "_right_interp_indices_memo", "chol_cap_mat", "_cached_kernel_eye", "_cached_kernel_diag"]
+                     "_right_interp_indices_memo", "_left_interp_values_memo", "_right_interp_values_memo"]
 
 
 def cache_key_name(k):
@@ -647,7 +647,7 @@ def knock_out(op, path, name):
         if name.startswith("@"):
             if name[1:] in o.__dict__:
                 if name[1:] in ("_default_preconditioner_cache", "_sparse_left_interp_t_memo", "_sparse_right_interp_t_memo",
-                                "_left_interp_indices_memo", "_right_interp_indices_memo", "_cached_kernel_eye", "_cached_kernel_diag"):
+                                "_left_interp_indices_memo", "_right_interp_indices_memo", "_left_interp_values_memo", "_right_interp_values_memo"):
                     del o.__dict__[name[1:]]
                 else:
                     o.__dict__[name[1:]] = None
